@@ -10,6 +10,8 @@ mod rng;
 mod rpcx;
 mod sim;
 mod simcheck;
+mod storetrace;
+mod trace;
 
 use std::path::PathBuf;
 
@@ -26,6 +28,7 @@ fn main() {
     std::fs::create_dir_all(&out).expect("create out dir");
     let r = match cmd.as_str() {
         "reflect" => reflect::run(&out),
+        "c01" | "c03" | "c10" => storetrace::run(&out, seed, thorough, &cmd),
         "c04" => c04::run(&out, seed, thorough),
         "c12" => c12::run(&out, seed, thorough),
         "c13" => c13::run(&out, seed, thorough),
